@@ -194,8 +194,9 @@ func decodeKeyCharByUnicodeRune(buf []byte, cursor int64) ([]byte, int64, error)
 }
 
 func decodeKeyCharByEscapedChar(buf []byte, cursor int64) ([]byte, int64, error) {
+	// the returned cursor is the position of the last character of the escape
+	// sequence (the caller steps over it)
 	c := buf[cursor]
-	cursor++
 	switch c {
 	case '"':
 		return []byte{'"'}, cursor, nil
@@ -214,7 +215,7 @@ func decodeKeyCharByEscapedChar(buf []byte, cursor int64) ([]byte, int64, error)
 	case 't':
 		return []byte{'\t'}, cursor, nil
 	case 'u':
-		return decodeKeyCharByUnicodeRune(buf, cursor)
+		return decodeKeyCharByUnicodeRune(buf, cursor+1)
 	}
 	// not an escape sequence: an error, as in the stream decoder
 	return nil, cursor, errors.ErrUnexpectedEndOfJSON("struct field", cursor)
@@ -599,8 +600,9 @@ func decodeKeyCharByEscapeCharStream(s *Stream) ([]byte, error) {
 			return nil, errors.ErrInvalidCharacter(s.char(), "escaped char", s.totalOffset())
 		}
 	}
+	// the cursor is left on the last character of the escape sequence (the
+	// caller steps over it)
 	c := s.buf[s.cursor]
-	s.cursor++
 	switch c {
 	case '"':
 		return []byte{'"'}, nil
@@ -619,6 +621,7 @@ func decodeKeyCharByEscapeCharStream(s *Stream) ([]byte, error) {
 	case 't':
 		return []byte{'\t'}, nil
 	case 'u':
+		s.cursor++
 		return decodeKeyCharByUnicodeRuneStream(s)
 	default:
 		return nil, errors.ErrUnexpectedEndOfJSON("struct field", s.totalOffset())
